@@ -233,6 +233,9 @@ func registerSimProfiles() {
 	if err := psatoken.RegisterProfile(XCProfile{}); err != nil {
 		panic(err)
 	}
+	if err := psatoken.RegisterProfile(XKProfile{}); err != nil {
+		panic(err)
+	}
 	simProfilesRegistered = true
 }
 
@@ -314,7 +317,19 @@ func (o *RecShape) UnmarshalJSON(data []byte) error {
 	return encoding.PopulateStructFromJSON(data, o)
 }
 
-const nShapes = 10
+// XIfaceClaims embeds the IClaims interface (holding whatever NewClaims returned).
+type XIfaceClaims struct {
+	psatoken.IClaims
+	Extra *int64 `cbor:"-75100,keyasint,omitempty" json:"sim-extra,omitempty"`
+}
+
+// PtrEmbShape embeds a struct BY POINTER (nil or not).
+type PtrEmbShape struct {
+	*FlatShape
+	T *int64 `cbor:"7,keyasint,omitempty" json:"t,omitempty"`
+}
+
+const nShapes = 12
 
 func newShape(kind int) any {
 	switch kind % nShapes {
@@ -328,6 +343,10 @@ func newShape(kind int) any {
 		return &BadKeyShape{}
 	case 9:
 		return &RecShape{}
+	case 10:
+		return &PtrEmbShape{} // nil embedded pointer
+	case 11:
+		return &PtrEmbShape{FlatShape: &FlatShape{}}
 	}
 	switch kind % nShapes {
 	case 0:
@@ -368,6 +387,10 @@ func filledShape(kind int, a int64, b string, c []byte) any {
 			return &BadKeyShape{Y: &a, Z: &a}
 		}
 		return &BadKeyShape{X: &a, Y: &a}
+	case 10:
+		return &PtrEmbShape{T: &a}
+	case 11:
+		return &PtrEmbShape{FlatShape: &f, T: &a}
 	case 9:
 		// 1..30 levels (the CBOR decoder's own nesting limit is 32)
 		depth := 1 + int(uint64(a)%30)
@@ -400,6 +423,8 @@ func filledShape(kind int, a int64, b string, c []byte) any {
 type XOwnClaims struct {
 	psatoken.P2Claims
 	Profile *string `json:"own-profile"`
+	// the profile field, found by its name, is not the last field of the struct
+	Stamp *int64 `json:"own-stamp,omitempty"`
 }
 
 func (o *XOwnClaims) Validate() error {
@@ -476,6 +501,8 @@ func (p NoTagProfile) GetClaims() psatoken.IClaims { return &NoTagClaims{} }
 type XOptClaims struct {
 	psatoken.P2Claims
 	Profile *string `json:"opt-profile,omitempty"`
+	Stamp   *int64  `json:"opt-stamp,omitempty"`
+	Note    string  `json:"opt-note,omitempty"`
 }
 
 func (o *XOptClaims) Validate() error {
@@ -774,6 +801,109 @@ func (XWProfile) GetClaims() psatoken.IClaims {
 		Profile:          eatProfileOf(xwName),
 		SwComponents:     &psatoken.SwComponents[*psatoken.SwComponent]{},
 		CanonicalProfile: xwName,
+	}}
+}
+
+// ---- "kitchen sink" extension over profile 2: optional claims of plain
+// (non-pointer) kinds, whose absence is their zero value, a mandatory plain
+// claim, a slice, a nested struct
+
+const xkName = "http://sim.example/psa/xk"
+
+type XKInner struct {
+	N *int64 `cbor:"1,keyasint,omitempty" json:"n,omitempty"`
+	S string `cbor:"2,keyasint,omitempty" json:"s,omitempty"`
+}
+
+// KEpoch: a claim declared as an EMBEDDED field of a named scalar type.
+type KEpoch uint64
+
+// XKGroup: an optional group of claims embedded BY POINTER. The embedding-aware
+// helpers merge by-value embedded structs only, so the group is never on the
+// wire; the claims families leave it nil (and it must stay nil).
+type XKGroup struct {
+	G1 *int64 `cbor:"-75520,keyasint,omitempty" json:"k-g1,omitempty"`
+}
+
+type XKClaims struct {
+	psatoken.P2Claims
+	*XKGroup
+	KEpoch `cbor:"-75507,keyasint,omitempty" json:"k-epoch,omitempty"`
+	Name  string   `cbor:"-75500,keyasint,omitempty" json:"k-name,omitempty"`
+	Count uint32   `cbor:"-75501,keyasint,omitempty" json:"k-count,omitempty"`
+	Flag  bool     `cbor:"-75502,keyasint,omitempty" json:"k-flag,omitempty"`
+	Blob  []byte   `cbor:"-75503,keyasint,omitempty" json:"k-blob,omitempty"`
+	List  []string `cbor:"-75504,keyasint,omitempty" json:"k-list,omitempty"`
+	Inner *XKInner `cbor:"-75505,keyasint,omitempty" json:"k-inner,omitempty"`
+	Must  int64    `cbor:"-75506,keyasint" json:"k-must"`
+}
+
+// GetWide renders the additional claims, nil and empty told apart.
+func (o *XKClaims) GetWide() string {
+	s := fmt.Sprintf("name=%q count=%d flag=%v must=%d epoch=%d group=%v", o.Name, o.Count, o.Flag, o.Must, uint64(o.KEpoch), o.XKGroup != nil)
+	if o.Blob == nil {
+		s += " blob=nil"
+	} else {
+		s += fmt.Sprintf(" blob=%x", o.Blob)
+	}
+	if o.List == nil {
+		s += " list=nil"
+	} else {
+		s += fmt.Sprintf(" list=%q", o.List)
+	}
+	if o.Inner == nil {
+		s += " inner=nil"
+	} else if o.Inner.N == nil {
+		s += fmt.Sprintf(" inner={-,%q}", o.Inner.S)
+	} else {
+		s += fmt.Sprintf(" inner={%d,%q}", *o.Inner.N, o.Inner.S)
+	}
+	return s
+}
+
+func (o *XKClaims) Validate() error {
+	if codecHit("codec.validate_err") {
+		return errInjectedCodec
+	}
+	return psatoken.ValidateClaims(o)
+}
+
+func (o XKClaims) MarshalCBOR() ([]byte, error) { //nolint:gocritic
+	if codecHit("codec.marshal_err") {
+		return nil, errInjectedCodec
+	}
+	return encoding.SerializeStructToCBOR(xem, &o)
+}
+
+func (o *XKClaims) UnmarshalCBOR(data []byte) error {
+	if codecHit("codec.unmarshal_err") {
+		return errInjectedCodec
+	}
+	return encoding.PopulateStructFromCBOR(xdm, data, o)
+}
+
+func (o XKClaims) MarshalJSON() ([]byte, error) { //nolint:gocritic
+	if codecHit("codec.marshal_err") {
+		return nil, errInjectedCodec
+	}
+	return encoding.SerializeStructToJSON(&o)
+}
+
+func (o *XKClaims) UnmarshalJSON(data []byte) error {
+	if codecHit("codec.unmarshal_err") {
+		return errInjectedCodec
+	}
+	return encoding.PopulateStructFromJSON(data, o)
+}
+
+type XKProfile struct{}
+
+func (XKProfile) GetName() string { return xkName }
+func (XKProfile) GetClaims() psatoken.IClaims {
+	return &XKClaims{P2Claims: psatoken.P2Claims{
+		Profile:          eatProfileOf(xkName),
+		SwComponents:     &psatoken.SwComponents[*psatoken.SwComponent]{},
+		CanonicalProfile: xkName,
 	}}
 }
 
